@@ -1033,12 +1033,54 @@ def r5_driver_tables(run):
 # ---------------------------------------------------------------------------
 
 def _route_tail(p, f: Func):
-    """(if-node, normalised test text, normalised else text) of the statement
-    that appends the connecting peer to a non-empty forwarded route."""
-    ROUTE = '_cached_access_route'
+    """(if-node, normalised test text) of the statement that appends the connecting peer to a non-empty forwarded route.
+    The route list and the peer address may be named by a local bound once to the attribute (`cached_route =
+    self._cached_access_route`, `remote_addr = self.remote_addr`: k4-c06-2).  The route alias is followed only when its
+    binding precedes the `if` in the same block with no store to the attribute in between (it is then the same list
+    object the attribute holds); the test is compared with the locals replaced by what they are bound to."""
+    import copy
 
-    def is_route(e):
+    ROUTE = '_cached_access_route'
+    asg = assignments(f)
+    parent = enclosing_map(f.node)
+
+    def is_route_attr(e):
         return isinstance(e, ast.Attribute) and e.attr == ROUTE
+
+    def once(e):
+        """the self-attribute a local is bound to exactly once (else the expression itself)"""
+        if isinstance(e, ast.Name) and e.id not in f.params():
+            vals = asg.get(e.id, [])
+            if len(vals) == 1 and isinstance(vals[0], ast.Attribute) and isinstance(vals[0].value, ast.Name) and vals[0].value.id == 'self':
+                return vals[0]
+        return e
+
+    def alias_live_at(name: str, ifnode) -> bool:
+        # walk backwards from the `if`, block by block outwards, to the binding of the alias; a store to the attribute
+        # met on the way (the attribute may then hold another list) ends the reading
+        cur = ifnode
+        while cur is not None and cur is not f.node:
+            holder = parent.get(id(cur))
+            for fld in ('body', 'orelse', 'finalbody'):
+                block = getattr(holder, fld, None)
+                if isinstance(block, list) and any(st is cur for st in block):
+                    idx = [i for i, st in enumerate(block) if st is cur][0]
+                    for j in range(idx - 1, -1, -1):
+                        st = block[j]
+                        if isinstance(st, (ast.Assign, ast.AnnAssign)) and any(isinstance(t, ast.Name) and t.id == name
+                                                                              for t in (st.targets if isinstance(st, ast.Assign) else [st.target])):
+                            return True
+                        if any(is_route_attr(y) and not isinstance(y.ctx, ast.Load) for y in ast.walk(st)):
+                            return False
+            if isinstance(holder, (ast.While, ast.For, ast.AsyncFor)):
+                return False        # (a loop body may run again after a later store)
+            cur = holder
+        return False
+
+    def is_route(e, ifnode):
+        if is_route_attr(e):
+            return True
+        return isinstance(e, ast.Name) and is_route_attr(once(e)) and alias_live_at(e.id, ifnode)
 
     found = []
     for n in walk_no_nested(f.node):
@@ -1046,19 +1088,26 @@ def _route_tail(p, f: Func):
             continue
         for st in n.body:
             if isinstance(st, ast.Expr) and isinstance(st.value, ast.Call) and isinstance(st.value.func, ast.Attribute) \
-                    and st.value.func.attr == 'append' and is_route(st.value.func.value) and len(st.value.args) == 1:
+                    and st.value.func.attr == 'append' and is_route(st.value.func.value, n) and len(st.value.args) == 1:
                 arg = st.value.args[0]
                 # the hop loop appends parsed hosts too; the peer append is the one guarded by a test that mentions the route
-                if any(is_route(x) for x in ast.walk(n.test)):
+                if any(is_route(x, n) for x in ast.walk(n.test)):
                     found.append((n, arg))
     if len(found) != 1:
         raise UnknownIdiom('%s: expected one guarded append of the peer address to the route, found %d' % (f.qual, len(found)))
     node, peer = found[0]
-    ptxt = unparse(peer)
-    txt = unparse(node.test).replace(ptxt, '<peer>')
-    for x in ast.walk(node.test):
-        if is_route(x):
-            txt = txt.replace(unparse(x), '<route>')
+    ptxt = unparse(once(peer))
+
+    class _Norm(ast.NodeTransformer):
+        def visit(self, x):
+            if isinstance(x, ast.expr):
+                if unparse(once(x)) == ptxt:
+                    return ast.Name(id='<peer>', ctx=ast.Load())
+                if is_route(x, node):
+                    return ast.Name(id='<route>', ctx=ast.Load())
+            return self.generic_visit(x)
+
+    txt = unparse(_Norm().visit(copy.deepcopy(node.test)))
     return node, txt
 
 
@@ -3432,10 +3481,11 @@ class _CellInfeasible(Exception):
 _DATA = object()
 
 
-def _read_cell_eval(p, f: Func, e, dname: str, size_texts: Set[str], n: int, cell):
+def _read_cell_eval(p, f: Func, e, dname: str, size_texts: Set[str], n: int, cell, derived=None, env=None):
     """Value of `e` when the latest `read(n)` returned `cell`: None, or bytes of length 0 / 1 / n-1 / n
-    (representatives of: end of stream, short read, full block)."""
-    E = lambda x: _read_cell_eval(p, f, x, dname, size_texts, n, cell)  # noqa: E731
+    (representatives of: end of stream, short read, full block).  `derived`: local name -> the one expression it is
+    bound to after the read (`short = len(data) < n`); `env`: text of a `self.<flag>` -> its abstract value."""
+    E = lambda x: _read_cell_eval(p, f, x, dname, size_texts, n, cell, derived, env)  # noqa: E731
 
     def truth(v):
         if v is _DATA:
@@ -3448,6 +3498,12 @@ def _read_cell_eval(p, f: Func, e, dname: str, size_texts: Set[str], n: int, cel
         return _DATA
     if isinstance(e, ast.NamedExpr) and e.target.id == dname:
         return _DATA
+    if derived and isinstance(e, ast.Name) and e.id in derived:
+        return _read_cell_eval(p, f, derived[e.id], dname, size_texts, n, cell, {k: v for k, v in derived.items() if k != e.id}, env)
+    if derived and isinstance(e, ast.NamedExpr) and e.target.id in derived and derived[e.target.id] is e.value:
+        return E(e.value)
+    if env and isinstance(e, ast.Attribute) and unparse(e) in env:
+        return env[unparse(e)]
     if isinstance(e, ast.Await):
         return E(e.value)
     if unparse(e) in size_texts:
@@ -3464,6 +3520,9 @@ def _read_cell_eval(p, f: Func, e, dname: str, size_texts: Set[str], n: int, cel
         raise _NotAboutData()
     if isinstance(e, ast.UnaryOp) and isinstance(e.op, ast.Not):
         return not truth(E(e.operand))
+    if isinstance(e, ast.Call) and isinstance(e.func, ast.Name) and e.func.id == 'bool' and len(e.args) == 1 and not e.keywords \
+            and e.func.id not in local_names(f):
+        return truth(E(e.args[0]))
     if isinstance(e, ast.BoolOp):
         # Python's value semantics: the first operand that decides, else the last (`data or b''` is the data or b'')
         v = None
@@ -3488,6 +3547,10 @@ def _read_cell_eval(p, f: Func, e, dname: str, size_texts: Set[str], n: int, cel
                     raise _NotAboutData()
                 if isinstance(op, (ast.IsNot, ast.NotEq)):
                     r = not r
+            elif (left is None or isinstance(left, bool)) and (right is None or isinstance(right, bool)) \
+                    and isinstance(op, (ast.Is, ast.IsNot, ast.Eq, ast.NotEq)):
+                # a flag compared with a constant (`flag is True`, `flag == False`, `flag is None`)
+                r = (left is right) == isinstance(op, (ast.Is, ast.Eq))
             elif isinstance(left, int) and isinstance(right, int) and not isinstance(left, bool) and not isinstance(right, bool) \
                     and type(op) in _CMPOPS and not isinstance(op, (ast.In, ast.NotIn, ast.Is, ast.IsNot)):
                 r = {'==': left == right, '!=': left != right, '<': left < right, '<=': left <= right, '>': left > right,
@@ -3565,6 +3628,34 @@ def _read_until_empty(run, p, f: Func, dname, call, loop, side: str):
     size_texts = {unparse(call.args[0])}
     nv = p.fold(f.module, call.args[0], f.cls, f)
     n = nv if isinstance(nv, int) and not isinstance(nv, bool) and nv >= 4 else 8192
+    # a local bound unconditionally, once, in the read scope to an expression (`short = len(data) < n` ... `if short: break`)
+    # stands for that expression; other bindings of it are falsy constants outside the scope (`short = False` before the loop)
+    derived = {}
+    for st in scope.body:
+        if isinstance(st, ast.Assign) and len(st.targets) == 1 and isinstance(st.targets[0], ast.Name):
+            nm, val = st.targets[0].id, st.value
+        elif isinstance(st, ast.AnnAssign) and st.value is not None and isinstance(st.target, ast.Name):
+            nm, val = st.target.id, st.value
+        else:
+            continue
+        if nm == dname or nm in f.params() or nm in flaggy or isinstance(val, ast.Constant):
+            continue
+        others = [v for v in assignments(f).get(nm, []) if v is not val]
+        if all(v is not None and isinstance(v, ast.Constant) and not v.value and id(v) not in inside for v in others):
+            derived[nm] = val
+    # the iterator's own state: `self.<flag>` written in __next__ and tested on a later call
+    flag_attrs = set()
+    if loop is None and f.cls is not None:
+        flag_attrs = {y.attr for y in walk_no_nested(f.node) if isinstance(y, ast.Attribute) and isinstance(y.ctx, (ast.Store, ast.Del))
+                      and isinstance(y.value, ast.Name) and y.value.id == 'self'}
+
+    def flags_in(t):
+        return {unparse(y) for y in walk_self(t) if isinstance(y, ast.Attribute) and isinstance(y.ctx, ast.Load)
+                and isinstance(y.value, ast.Name) and y.value.id == 'self' and y.attr in flag_attrs}
+
+    def about_data(t):
+        return any(isinstance(y, ast.Name) and (y.id == dname or y.id in derived) for y in walk_self(t))
+
     # ways out of the loop (WSGI iterator: ways to end the iteration)
     exits = []
     parent = enclosing_map(f.node)
@@ -3612,6 +3703,18 @@ def _read_until_empty(run, p, f: Func, dname, call, loop, side: str):
         facts = [(t, tr) for t, tr in facts if not flag_test(t)]
         if not facts:
             raise UnknownIdiom('%s: `%s` leaves the read loop unconditionally' % (f.qual, short(x, 40)))
+        dropped = None
+        if any(flags_in(t) for t, _tr in facts):
+            if not any(about_data(t) for t, _tr in facts):
+                # tested before / apart from this call's read: the flag carries what an EARLIER call saw
+                _carried_flag_exit(run, p, f, cfg, x, facts, flags_in, about_data, dname, call, size_texts, n, derived, what)
+                continue
+            # an exit after the read that is also under a flag test: the data facts alone may prove it closed for a
+            # non-empty read (dropping a conjunct only opens the exit further); if they do not, the shape is unread
+            dropped = [(t, tr) for t, tr in facts if flags_in(t)]
+            facts = [(t, tr) for t, tr in facts if not flags_in(t)]
+            if not facts:
+                raise UnknownIdiom('%s: `%s` is under `%s`, which mixes the iterator state and the data read' % (f.qual, short(x, 40), short(dropped[0][0], 60)))
         guards = [(t, tr) for t, tr in facts if not isinstance(t, ast.Constant)]
         cons = ('while ' + unparse(x.test)) if isinstance(x, ast.While) else '%s [%s]' % (
             short(x, 40), ' and '.join(('' if tr else 'not ') + unparse(t) for t, tr in guards))
@@ -3621,7 +3724,7 @@ def _read_until_empty(run, p, f: Func, dname, call, loop, side: str):
             unknown = None
             for t, tr in facts:
                 try:
-                    val = _read_cell_eval(p, f, t, dname, size_texts, n, cell)
+                    val = _read_cell_eval(p, f, t, dname, size_texts, n, cell, derived)
                     if (cell > 0 if val is _DATA else bool(val)) != tr:
                         refuted = True
                         break
@@ -3636,6 +3739,9 @@ def _read_until_empty(run, p, f: Func, dname, call, loop, side: str):
                 unread = unknown
             else:
                 open_for.append(cell)
+        if open_for and dropped:
+            raise UnknownIdiom('%s: `%s` is left open for a non-empty read by the conditions on the data; whether `%s` closes it is not read'
+                               % (f.qual, short(x, 40), short(dropped[0][0], 60)))
         if open_for:
             names = {1: 'a 1-byte read', n - 1: 'a read one byte short of the block size', n: 'a full block'}
             run.fail(what + ': `%s` is reached after %s' % (short(x, 40) if not isinstance(x, ast.While) else cons,
@@ -3649,6 +3755,137 @@ def _read_until_empty(run, p, f: Func, dname, call, loop, side: str):
             raise UnknownIdiom('%s: the read loop is left under `%s`, which the rule cannot read as a condition on the data read' % (f.qual, short(unread, 60)))
         else:
             run.ok(what, f.loc(x), cons)
+
+
+def _carried_flag_exit(run, p, f: Func, cfg, x, facts, flags_in, about_data, dname, call, size_texts, n, derived, what):
+    """An end of the iteration guarded by `self.<flag>` alone (no condition on this call's data): the flag is state a
+    PREVIOUS __next__ call left behind.  Its possible values are read from the stores of the class: the initial one
+    (__init__ / class body, a constant), constants written by other methods (close(): not a function of the data) and
+    the stores of __next__ after the read, each evaluated - value and dominating branch facts - over the cells
+    len(data) in {1, n-1, n}.  Violation: a value stored after a NON-EMPTY read opens the exit on the next call
+    (`self._drained = len(data) < n` / `if len(data) < n: self._drained = True`); `self._drained = not data` holds."""
+    texts = set()
+    for t, _tr in facts:
+        texts |= flags_in(t)
+    if len(texts) != 1:
+        raise UnknownIdiom('%s: `%s` is under several state flags (%s)' % (f.qual, short(x, 40), ', '.join(sorted(texts))))
+    text = next(iter(texts))
+    attr = text.split('.', 1)[1]
+    parent = enclosing_map(f.node)
+
+    def stores(g):
+        out = []
+        for y in walk_no_nested(g.node):
+            if isinstance(y, ast.Attribute) and y.attr == attr and isinstance(y.ctx, (ast.Store, ast.Del)) \
+                    and isinstance(y.value, ast.Name) and y.value.id == 'self':
+                st = parent.get(id(y)) if g is f else enclosing_map(g.node).get(id(y))
+                if isinstance(st, ast.Assign) and any(tg is y for tg in st.targets):
+                    out.append((st, st.value))
+                elif isinstance(st, ast.AnnAssign) and st.target is y and st.value is not None:
+                    out.append((st, st.value))
+                else:
+                    raise UnknownIdiom('%s: `%s` is written by something other than a plain assignment' % (g.qual, text))
+        return out
+
+    # initial value and writers outside __next__
+    init = []
+    for name, g in f.cls.methods.items():
+        if g is f:
+            continue
+        for st, v in stores(g):
+            if not isinstance(v, ast.Constant):
+                raise UnknownIdiom('%s: `%s = %s` outside __next__ is not a constant' % (g.qual, text, short(v, 40)))
+            if name == '__init__':
+                init.append(v.value)
+    if not init and attr in f.cls.attrs and isinstance(f.cls.attrs[attr], ast.Constant):
+        init.append(f.cls.attrs[attr].value)
+    if len(set(map(repr, init))) != 1:
+        raise UnknownIdiom('%s: the initial value of `%s` is not one constant set by __init__ / the class body' % (f.qual, text))
+    init = init[0]
+
+    def holds(fs, cell, env):
+        """all of the facts hold (True) / one is refuted (False) for the cell; _NotAboutData propagates"""
+        for t, tr in fs:
+            try:
+                val = _read_cell_eval(p, f, t, dname, size_texts, n, cell, derived, env)
+            except _CellInfeasible:
+                return False
+            if ((cell is not None and cell > 0) if val is _DATA else bool(val)) != tr:
+                return False
+        return True
+
+    try:
+        if holds(facts, None, {text: init}):
+            raise UnknownIdiom('%s: `%s` is open for the initial `%s = %r`: the iteration ends before the first read' % (f.qual, short(x, 40), text, init))
+    except _NotAboutData:
+        raise UnknownIdiom('%s: the iteration is ended under `%s`, which the rule cannot read as a test of the state flag' % (f.qual, short(facts[0][0], 60)))
+    # the stores of __next__
+    stmt = parent.get(id(call))
+    while stmt is not None and not isinstance(stmt, ast.stmt):
+        stmt = parent.get(id(stmt))
+    read_nodes = cfg.nodes_for(stmt) if stmt is not None else []
+    if not read_nodes:
+        raise UnknownIdiom('%s: the statement of `%s` has no node on the graph' % (f.qual, short(call, 60)))
+    producers = []
+    for st, v in stores(f):
+        nids = [i for i in cfg.nodes_for(st) if not cfg.node(i).copy] or cfg.nodes_for(st)
+        if not nids:
+            continue            # unreachable store
+        sfacts = [(t, tr) for t, tr in branch_facts(cfg, nids[0]) if not isinstance(t, ast.Constant)]
+        # a store that itself sits under a test of the flag is read only for the flag's initial state
+        own = [(t, tr) for t, tr in sfacts if flags_in(t)]
+        sfacts = [(t, tr) for t, tr in sfacts if not flags_in(t)]
+        try:
+            if own and not holds(own, None, {text: init}):
+                raise UnknownIdiom('%s: `%s` is stored only once `%s` already differs from its initial value' % (f.qual, short(st, 50), text))
+        except _NotAboutData:
+            raise UnknownIdiom('%s: `%s` is stored under `%s`, which is not read' % (f.qual, short(st, 50), short(own[0][0], 60)))
+        if not flow.dominated_by_nodes(cfg, nids[0], read_nodes):
+            if isinstance(v, ast.Constant) and not any(about_data(t) for t, _tr in sfacts):
+                try:
+                    if not holds(facts, None, {text: v.value}):
+                        continue        # a reset before the read that does not end anything
+                except _NotAboutData:
+                    pass
+            raise UnknownIdiom('%s: `%s` is not preceded by the read on every path' % (f.qual, short(st, 50)))
+        producers.append((st, v, sfacts))
+    opened = []
+    for cell in (1, n - 1, n):
+        try:
+            active = [(st, v) for st, v, sfacts in producers if holds(sfacts, cell, None)]
+        except _NotAboutData:
+            raise UnknownIdiom('%s: a store of `%s` is under a condition that is not read as a condition on the data' % (f.qual, text))
+        if len(active) > 1:
+            raise UnknownIdiom('%s: `%s` is stored more than once after one read (%s); which store is the last is not read'
+                               % (f.qual, text, ' / '.join(short(st, 40) for st, _v in active)))
+        for st, v in active:
+            try:
+                val = _read_cell_eval(p, f, v, dname, size_texts, n, cell, derived)
+            except (_NotAboutData, _CellInfeasible):
+                raise UnknownIdiom('%s: the value of `%s` is not read as a function of the data' % (f.qual, short(st, 50)))
+            if val is _DATA:
+                val = True      # (non-empty bytes; only their truth is used)
+            try:
+                if holds(facts, None, {text: val}):
+                    opened.append((cell, st, val))
+            except _NotAboutData:
+                raise UnknownIdiom('%s: the iteration is ended under `%s`, which is not read for `%s = %r`' % (f.qual, short(facts[0][0], 60), text, val))
+    guard = ' and '.join(('' if tr else 'not ') + unparse(t) for t, tr in facts)
+    cons = '%s [%s]' % (short(x, 40), guard)
+    if opened:
+        names = {1: 'a 1-byte read', n - 1: 'a read one byte short of the block size', n: 'a full block'}
+        st0 = opened[0][1]
+        pf = [sf for s_, _v, sf in producers if s_ is st0][0]
+        run.fail(what + ': `%s` is reached on the call after %s, through `%s`' % (short(x, 40), ', '.join(names[c] for c, _s, _v in opened), short(st0, 50)),
+                 f, cons + ' <- ' + short(st0, 50), where=f.loc(x),
+                 witness=['exit guarded by: ' + guard,
+                          '`%s` at %s under: %s' % (short(st0, 50), f.loc(st0), ' and '.join(('' if tr else 'not ') + '(%s)' % unparse(t) for t, tr in pf) or 'nothing'),
+                          'block size %s = %d; cells of len(%s): 0, 1, %d, %d; the store leaves %s' % (
+                              unparse(call.args[0]), n, dname, n - 1, n, ', '.join('%s = %r after len %d' % (text, v, c) for c, _s, v in opened))],
+                 runtime_witness='resp.stream reads from a pipe: pieces of 60, 3500, 8192 ... bytes; this stack stops after the first '
+                                 'short piece and the rest of the body is dropped, the sibling stack delivers all of it')
+    else:
+        run.ok(what, f.loc(x), cons)
 
 
 def r22_stream_read_until_empty(run):
@@ -3738,5 +3975,8 @@ def check(run):
     from . import c12 as _c12
     # (the outcome of asking the request for its media - value or error, first and later calls - is part of what the
     #  application sees: s10-c06-2, ASGI get_media stopped remembering non-HTTP errors)
+    from .c06_drivers import r24_generated_header_precedence
+    run.rule('R24', r24_generated_header_precedence, 'create_environ / create_scope: a header passed in by the caller takes precedence over the generated '
+             'host / content-length / cookie / user-agent header in both drivers (finding F26)', floor=7)
     run.rule('R23', _c12._safe(_c12.r1_parse_once), 'media access: WSGI and ASGI get_media are event-language-equal (parse once, cache value and error, exhaust, default) '
              '(shared with C12 R1)', floor=50)
